@@ -155,6 +155,16 @@ def c13_known_class(case, observed, expected):
     return bool(case.get("known_class"))
 
 
+def c13_regen_pytz(case, observed, expected):
+    return bool(case.get("known_class")) and case.get("provider") == "pytz"
+
+
+def c13_regen_first_kind(case, observed, expected):
+    """zoneinfo provider: the regenerated component differs only in STANDARD/DAYLIGHT of the observance standing at the
+    window start with TZOFFSETFROM = TZOFFSETTO (decided by first_kind_only on the two components)"""
+    return bool(case.get("known_class")) and case.get("provider") == "zoneinfo" and bool(case.get("firstkind"))
+
+
 def c13_apia_dateutil(case, observed, expected):
     return case.get("tzid") == "Pacific/Apia" and case.get("exc") == "ValueError"
 
